@@ -315,7 +315,7 @@ void anneal_puso(  // updates states and values in place
     }
 
     long *index = (long*)malloc(num_terms * sizeof(long));
-    index[0] = 0;
+    if(num_terms) index[0] = 0;  // index has length num_terms
     for(long term=0; term<num_terms; term++) {
         if(term) {
             index[term] = index[term-1] + num_couplings[term-1];
